@@ -167,6 +167,8 @@ theorem add_keeps (st st' : St) (r : Rec) (hO : r.rt ≠ .O) (hU : r.rt ≠ .U) 
     · rename_i l _
       split at he
       · rename_i i _
+        split at he
+        · cases he
         unfold addLinkOnto at he
         split at he
         · rename_i hvirt
